@@ -46,6 +46,11 @@ def run_one_shard(prop, tier, seed, shard, nshards, timeout, outdir, only_case=N
     env["OPENBLAS_NUM_THREADS"] = "1"
     env["MKL_NUM_THREADS"] = "1"
     cmd = [PY, "-B", "-m", "vf.shard", prop, tier, str(seed), str(shard), str(nshards), out]
+    # interpreter flags are a configuration like any other: every fourth shard runs under `python -O` (assert statements
+    # stripped, __debug__ False), which a deployment may legitimately use; VF_PYOPT=1 / 0 forces it on / off everywhere
+    pyopt = os.environ.get("VF_PYOPT")
+    if pyopt == "1" or (pyopt is None and shard % 4 == 3):
+        cmd.insert(1, "-O")
     t0 = time.time()
     try:
         p = subprocess.run(cmd, cwd=ROOT, env=env, timeout=timeout, stdout=subprocess.PIPE, stderr=subprocess.PIPE)
